@@ -1,4 +1,4 @@
-import QipVerif.Lemmas.SimKetResolve
+import QipVerif.Lemmas.SimKetLib
 /-!
 # C01 — gate-level evolution equals the ordered product of the gates' matrices
 
@@ -363,6 +363,34 @@ theorem compact_pipeline_eq_den (N : ℕ) (ops : List (Op ℂ)) (hne : ops ≠ [
         .ok (R, sortDedup (ops.map (stepQubits N)).flatten) ∧
       embL N (sortDedup (ops.map (stepQubits N)).flatten) R = denP (ops.map (toPGate N)) :=
   compact_pipeline N ops hne hw
+
+/-! ## Circuits of library gates, against the shared specification object `denG` -/
+
+/-- **`library_circuit_eq_denG`.** For every register size, every valuation `ρ` of the symbolic angles
+(so: every real angle) and every circuit `gs` of library gates in the circuit IR that has a denotation
+`denG N ρ gs = some D` (known names, as many qubits as the gate has, no repeated qubit, all `< N`):
+the steps `libStep` (GLOBALPHASE: the scalar `e^{iθ}`; otherwise the rows of `compactC name θ` — the
+matrices generated from the source, whose documented forms are C09 — on `controls ++ targets`) exist,
+and the state-vector run, `compute_unitary` and the density-matrix run of the model on them are `D ψ`,
+`D` and `D ρ₀ D†`.  This discharges the hypothesis of `den_eq_denG` for the library. -/
+theorem library_circuit_eq_denG (N : ℕ) (ρ : ℕ → ℝ) (gs : List Gate) (D : Matrix (St N) (St N) ℂ)
+    (h : denG N ρ gs = some D) :
+    ∃ ops, gs.mapM (libStep ρ) = some ops ∧
+      (∀ amps, ∃ T', runKet opsC ops (ketTensor N amps) = .ok T' ∧
+        ketOf N T' = D.mulVec (ketOf N (ketTensor N amps))) ∧
+      (∃ T', computeUnitary opsC N ops = .ok T' ∧ operOf N T' = D) ∧
+      (∀ ρ0 : FMat ℂ, ρ0.n = 2 ^ N → ∃ ρ', runDm opsC N ops ρ0 = .ok ρ' ∧ matOf N ρ' = D * matOf N ρ0 * Dᴴ) := by
+  obtain ⟨ops, h1, h2, h3⟩ := denG_libSteps N ρ gs D h
+  refine ⟨ops, h1, fun amps => ?_, ?_, fun ρ0 hρ => ?_⟩
+  · obtain ⟨T', g1, _, g3⟩ := ket_run N ops h2 amps
+    exact ⟨T', g1, h3 ▸ g3⟩
+  · obtain ⟨T', g1, _, g3⟩ := unitary_run N ops h2
+    exact ⟨T', g1, h3 ▸ g3⟩
+  · obtain ⟨ρ', g1, _, g3⟩ := runDm_spec N ops h2 ρ0 hρ
+    exact ⟨ρ', g1, h3 ▸ g3⟩
+-- non-vacuity: RZ(θ) on qubit 1, then CNOT(control 2, target 0), on 3 qubits has a denotation for every θ
+example (ρ : ℕ → ℝ) : (denG 3 ρ [⟨.RZ, [1], [], Ang.symb 0⟩, ⟨.CNOT, [0], [2], {}⟩]).isSome = true := by
+  simp [denG, semG, compactC, gateE, Gate.qubits]
 
 /-! ### Counter-example for an unsorted order (the unrepaired code on CPython with qubit labels ≥ 8) -/
 
